@@ -160,6 +160,32 @@ def run(res, tier, rng, table_diffs=()):
                 crash = i.startswith(("PANIC", "CRASH", "TIMEOUT"))
                 res.violation("the tokenizer crashed" if crash else "model tokenizer and lexer.rs disagree",
                               dict(kind="model", input=s, impl=i, model=m, unchecked="correspondence Model/Lexer vs lexer.rs"), no_input=not crash)
+    # numbers keep their exact spelling (round 9): integer literals of every length at the binary and decimal boundaries (2^k, 10^d,
+    # the 61-bit range end, i64/u64 ends and the 19/20-digit window between them), with leading zeros: in range => exactly that
+    # number, out of range => a syntax error, never another number (a wrapped or saturated conversion)
+    nums = set()
+    for k in range(50, 70):
+        nums |= {2 ** k - 1, 2 ** k, 2 ** k + 1}
+    for d in range(1, 26):
+        nums |= {10 ** d - 1, 10 ** d, 10 ** d + 1, 9 * 10 ** d, 5 * 10 ** d + 7}
+    nums |= {2 ** 63 + 8, 2 ** 63 + 2 ** 60 - 1, 2 ** 64 - 1, 2 ** 64 + 5, 9999999999999999999, 9223372036854775815, 10 ** 19 - 2 ** 60, 2 ** 64 + 2 ** 59, 2 ** 128 + 3}
+    for _ in range(60 if tier == "quick" else 3000):
+        nums.add(rng.below(10 ** rng.range(16, 23)))
+    spell = []
+    for v in sorted(nums):
+        spell.append((str(v), v))
+        spell.append(("000" + str(v), v))
+    na2 = core.impl(["eval 1000 " + hx(t) for t, _ in spell] + ["eval 1000 " + hx("[%s, string(%s), %s == %s - 0]" % (t, t, t, t)) for t, _ in spell])
+    nm2 = core.model(["eval 1000 " + hx(t) for t, _ in spell])
+    for k, (t, v) in enumerate(spell):
+        res.seen("I" + t)
+        res.count("int-spelling")
+        want = "ok i:%d | x" % v if v < 2 ** 60 else "err Syntax | x"
+        want2 = "ok a:[i:%d s:%s b:ja] | x" % (v, hx(str(v))) if v < 2 ** 60 else "err Syntax | x"
+        if na2[k] != want or na2[len(spell) + k] != want2 or nm2[k] != want:
+            res.violation("an integer literal was not read as the number written (or an out-of-range literal was accepted)",
+                          dict(kind="control", input=t, expected=want, impl=na2[k], impl_in_list=na2[len(spell) + k], model=nm2[k]))
+            break
     # directed: inputs that used to be silently dropped must be rejected
     for src in ["1 № 2", "5 \"abc", "1 & 2", "1 | 2", "x # y", "\"a\\\\\" 1"]:
         r = core.impl(["eval 1000 " + hx(src)])[0]
